@@ -147,6 +147,26 @@ func mutation(pid int, r *syscall.PtraceRegs, dirs []string) string {
 	return ""
 }
 
+// Options of a traced run.
+type Options struct {
+	// Signal is sent when the chosen point is reached: SIGKILL (default) goes to the whole process group and ends the run;
+	// any other signal (SIGINT, SIGTERM) is delivered once to the main process, which then runs on (its handlers,
+	// deferred clean-up) until it exits by itself.
+	Signal syscall.Signal
+	// CountReads makes read / pread64 of files below the watched directories points too (moments before anything has been
+	// written: an interrupt that arrives while the input is still being read).
+	CountReads bool
+}
+
+// RunOpt is Run with options.
+func RunOpt(argv, env []string, dirs []string, killAt int, outFile string, opt Options) (Result, error) {
+	curOpt = opt
+	defer func() { curOpt = Options{} }()
+	return Run(argv, env, dirs, killAt, outFile)
+}
+
+var curOpt Options
+
 // Run executes argv under ptrace. killAt <= 0: never kill (count only). dirs: absolute directory prefixes whose files count.
 func Run(argv, env []string, dirs []string, killAt int, outFile string) (res Result, err error) {
 	runtime.LockOSThread()
@@ -183,6 +203,10 @@ func Run(argv, env []string, dirs []string, killAt int, outFile string) (res Res
 	res.ExitCode = -1
 	kill := func() {
 		res.Killed = true
+		if curOpt.Signal != 0 && curOpt.Signal != syscall.SIGKILL {
+			syscall.Kill(pid, curOpt.Signal)
+			return
+		}
 		syscall.Kill(-pid, syscall.SIGKILL)
 		syscall.Kill(pid, syscall.SIGKILL)
 	}
@@ -211,6 +235,20 @@ func Run(argv, env []string, dirs []string, killAt int, outFile string) (res Res
 				if res.Killed {
 					syscall.PtraceSyscall(wpid, 0)
 					continue
+				}
+				if curOpt.CountReads {
+					var rr syscall.PtraceRegs
+					if err := syscall.PtraceGetRegs(wpid, &rr); err == nil && int64(rr.Rax) == -38 && (rr.Orig_rax == 0 || rr.Orig_rax == 17) {
+						if p := fdPath(wpid, rr.Rdi); watched(p, dirs) {
+							res.Mutations++
+							res.Calls = append(res.Calls, "read "+p)
+							if res.Mutations == killAt {
+								kill()
+							}
+							syscall.PtraceSyscall(wpid, 0)
+							continue
+						}
+					}
 				}
 				if err := syscall.PtraceGetRegs(wpid, &regs); err == nil && int64(regs.Rax) == -38 { // -ENOSYS: entry stop
 					if m := mutation(wpid, &regs, dirs); m != "" {
